@@ -348,6 +348,22 @@ def passthrough(exp, spec_text):
     return None
 
 
+PRIVATE = [("//vectorize_over", "//c16_begin_block"), ("//end_vectorize", "//c16_end_block"), ("//only_for_context", "//c16_only_in"), ("//include_file", "//c16_splice"),
+           ("/*gpukern*/", "/*c16kern*/"), ("/*gpuglmem*/", "/*c16mem*/")]
+
+
+def to_private(text):
+    for a, b in PRIVATE:
+        text = text.replace(a, b)
+    return text
+
+
+def from_private(text):
+    for a, b in PRIVATE:
+        text = text.replace(b, a)
+    return text
+
+
 def run_shard(sks, tier, seed):
     import xobjects as xo
 
@@ -380,8 +396,10 @@ def run_shard(sks, tier, seed):
             texts.append("\n".join(lines))
             exps[exp["name"]] = (sk, exp)
         src_path = os.path.join(srcdir, "kern.c")
+        # the file is written in a PRIVATE vocabulary; a function given as apply_to_source (the hook downstream packages use
+        # for their own markers) translates it into the annotations before the source is specialised
         with open(src_path, "w") as f:
-            f.write("\n".join(texts) + "\n")
+            f.write(to_private("\n".join(texts) + "\n"))
         names = list(exps)
         cuda, ocl = make_gpu_contexts(work)
         ctxs = [("cpu_serial", "cpu_serial", xo.ContextCpu(0), None), ("cpu_openmp", "cpu_openmp", xo.ContextCpu(omp_num_threads=2), None), ("cpu_openmp_auto", "cpu_openmp", xo.ContextCpu(omp_num_threads="auto"), None)]
@@ -399,9 +417,9 @@ def run_shard(sks, tier, seed):
                 if target.startswith("cpu"):
                     # the first build of the process is given an extra header: it belongs to that build only
                     xh = dict(extra_headers=["#define C16_EXTRA_HEADER 1"]) if label == "cpu_serial" else {}
-                    ctx.add_kernels(sources=[twice, twice, Path(src_path)], kernels=kernel_descr(names, bs), extra_compile_args=("-O0", "-w"), extra_link_args=(), **xh)
+                    ctx.add_kernels(sources=[twice, twice, Path(src_path)], kernels=kernel_descr(names, bs), extra_compile_args=("-O0", "-w"), extra_link_args=(), apply_to_source=[from_private], **xh)
                 else:
-                    ctx.add_kernels(sources=[twice, twice, Path(src_path)], kernels=kernel_descr(names, bs))
+                    ctx.add_kernels(sources=[twice, twice, Path(src_path)], kernels=kernel_descr(names, bs), apply_to_source=[from_private])
             except Exception as e:
                 bad("C16.builds", "specialised-source-does-not-build", sks[0], "%s: %s" % (label, str(e)[-1500:]), target=target)
                 continue
